@@ -58,6 +58,14 @@ def spot_file(r):
         src += ("Goal 1/200 <= Rabs (vdist p1 p2 - vdist q1 q2) \\/ 1/200 <= Rabs (vdist p1 p3 - vdist q1 q3) \\/ 1/200 <= Rabs (vdist p2 p3 - vdist q2 q3).\n"
                 "Proof. unfold p1, p2, p3, q1, q2, q3; unf; first [left; interval with (i_prec 120) | right; left; interval with (i_prec 120) | right; right; interval with (i_prec 120)]. Qed.\n")
         n += 1
+    elif r["got"] == "collinear_target":
+        # congruent within 5 mm, source not collinear, target exactly collinear
+        for a, b in (("1", "2"), ("1", "3"), ("2", "3")):
+            src += f"Goal Rabs (vdist p{a} p{b} - vdist q{a} q{b}) < 1/200. Proof. unfold p1, p2, p3, q1, q2, q3; unf; interval with (i_prec 120). Qed.\n"
+            n += 1
+        src += "Goal 0 < vnorm (vcross (vsub p2 p1) (vsub p3 p1)). Proof. unfold p1, p2, p3; unf; interval with (i_prec 120). Qed.\n"
+        src += "Goal vcross (vsub q2 q1) (vsub q3 q1) = mkV3 0 0 0. Proof. unfold q1, q2, q3; unf; f_equal; field. Qed.\n"
+        n += 2
     elif r["got"] == "collinear_source":
         src += ("Goal vcross (vsub p2 p1) (vsub p3 p1) = mkV3 0 0 0. Proof. unfold p1, p2, p3; unf; f_equal; field. Qed.\n")
         n += 1
